@@ -122,6 +122,35 @@ def fam_validation(rng, n):
     return fam
 
 
+def fixed_creation_cases():
+    """the late rules on fixed small models (independent of the random stream): each rule violated alone -- in particular a
+    stochastic transition on a CONTINUOUS state while no discrete state is stochastic -- and next to a valid stochastic
+    discrete state; plus the two valid base models"""
+    F = Fraction
+    def base(other_stochastic):
+        fs = [{"name": "utility", "args": ["kind", "wealth", "work"], "body": ["+", ["+", X.v("wealth"), X.v("kind")], X.v("work")], "stochastic": False},
+              {"name": "next_wealth", "args": ["wealth", "work"], "body": ["+", X.v("wealth"), X.v("work")], "stochastic": False},
+              {"name": "next_kind", "args": ["kind"], "body": X.v("kind") if not other_stochastic else X.c(0), "stochastic": other_stochastic},
+              {"name": "ok_filter", "args": ["kind", "work"], "body": ["<=", X.v("work"), ["+", X.v("kind"), X.c(1)]], "stochastic": False}]
+        return {"n_periods": 2, "states": [["kind", {"d": 2}], ["wealth", {"lin": [F(0), F(2), 3]}]], "choices": [["work", {"d": 2}]], "functions": fs}
+    out = []
+    for other in (False, True):
+        for kind in ("none", "stoch_on_cont", "dep_on_cont", "filter_param"):
+            m = base(other)
+            fn = {f["name"]: f for f in m["functions"]}
+            if kind == "stoch_on_cont":
+                fn["next_wealth"].update(stochastic=True, args=["kind"], body=X.c(0))
+            elif kind == "dep_on_cont":
+                if not other:
+                    continue                       # needs a stochastic transition to attach the continuous dependency to
+                fn["next_kind"]["args"] = ["kind", "wealth"]
+            elif kind == "filter_param":
+                fn["ok_filter"]["args"] = ["kind", "work", "threshold"]
+                fn["ok_filter"]["body"] = ["and", fn["ok_filter"]["body"], ["<=", X.c(0), X.v("threshold")]]
+            out.append({"fn": "creation_checks", "model": G.model_json(m, q), "py": G.render_python(m), "violation": kind})
+    return out
+
+
 def fam_creation(rng, n):
     fam = Family("creation_checks",
                  "valid generated models with one late rule violated on top: a stochastic transition on a "
@@ -158,6 +187,7 @@ def fam_creation(rng, n):
                     break
         w = {"fn": "creation_checks", "model": G.model_json(m, q), "py": G.render_python(m), "violation": done}
         wcs.append(w)
+    wcs += fixed_creation_cases()
     mres, ires = run_model(wcs), run_impl(wcs)
     for w, m, i in zip(wcs, mres, ires):
         fam.count({"py": w["py"]})
